@@ -5,22 +5,24 @@ use std::fmt::Display;
 pub const SPECS: [&str; 22] = [
     "", "<", "^", ">", "*<", "*^", "*>", "0<", "0^", "0>", "é<", "é^", "é>", "+", "#", "0", "+<", "#>", "-^", "_>", " <", "x^",
 ];
-pub const WIDTHS: usize = 17; // 0..=16
+pub const WIDTHS: usize = 18; // none, 0..=16
 pub const PRECS: usize = 10; // none, 0..=8
 
 macro_rules! arms {
     ($t:expr, $si:expr, $w:expr, $p:expr; $($i:literal => $s:literal),*) => {
         match $si {
-            $($i => match $p {
-                None => format!(concat!("{:", $s, "w$}"), $t, w = $w),
-                Some(p) => format!(concat!("{:", $s, "w$.p$}"), $t, w = $w, p = p),
+            $($i => match ($w, $p) {
+                (None, None) => format!(concat!("{:", $s, "}"), $t),
+                (None, Some(p)) => format!(concat!("{:", $s, ".p$}"), $t, p = p),
+                (Some(w), None) => format!(concat!("{:", $s, "w$}"), $t, w = w),
+                (Some(w), Some(p)) => format!(concat!("{:", $s, "w$.p$}"), $t, w = w, p = p),
             },)*
             _ => unreachable!(),
         }
     };
 }
 
-pub fn render(t: &dyn Display, si: usize, w: usize, p: Option<usize>) -> String {
+pub fn render(t: &dyn Display, si: usize, w: Option<usize>, p: Option<usize>) -> String {
     arms!(t, si, w, p;
         0 => "", 1 => "<", 2 => "^", 3 => ">", 4 => "*<", 5 => "*^", 6 => "*>", 7 => "0<", 8 => "0^", 9 => "0>",
         10 => "é<", 11 => "é^", 12 => "é>", 13 => "+", 14 => "#", 15 => "0", 16 => "+<", 17 => "#>", 18 => "-^",
@@ -31,15 +33,16 @@ pub fn cells() -> usize {
     SPECS.len() * WIDTHS * PRECS
 }
 
-pub fn cell(k: usize) -> (usize, usize, Option<usize>) {
+pub fn cell(k: usize) -> (usize, Option<usize>, Option<usize>) {
     let si = k / (WIDTHS * PRECS);
     let w = (k / PRECS) % WIDTHS;
     let p = k % PRECS;
-    (si, w, if p == 0 { None } else { Some(p - 1) })
+    (si, if w == 0 { None } else { Some(w - 1) }, if p == 0 { None } else { Some(p - 1) })
 }
 
 pub fn label(k: usize) -> String {
     let (si, w, p) = cell(k);
+    let w = w.map(|w| w.to_string()).unwrap_or_default();
     match p {
         None => format!("{{:{}{}}}", SPECS[si], w),
         Some(p) => format!("{{:{}{}.{}}}", SPECS[si], w, p),
@@ -57,7 +60,7 @@ pub fn compare(actual: &dyn Display, reference: &dyn Display, ref_chars: usize) 
             Err(e) => return (k as u64, nt, Some((label(k), "no panic".into(), format!("panicked: {}", e)))),
         };
         let r = render(reference, si, w, p);
-        if w > ref_chars || p.map(|p| p < ref_chars).unwrap_or(false) {
+        if w.map(|w| w > ref_chars).unwrap_or(false) || p.map(|p| p < ref_chars).unwrap_or(false) {
             nt += 1;
         }
         if a != r {
